@@ -208,6 +208,9 @@ where
         }
     };
 
+    #[cfg(feature = "verif_hooks")]
+    let auxiliary_polys = crate::verif_hooks::tamper_aux(auxiliary_polys);
+
     debug_assert!(
         (stark.uses_lookups() || stark.requires_ctls()) || auxiliary_polys.is_none(),
         "There should be auxiliary polynomials if and only if we have either lookups or require cross-table lookups."
@@ -394,6 +397,12 @@ where
             quotient_polys
                 .into_par_iter()
                 .flat_map(|mut quotient_poly| {
+                    #[cfg(feature = "verif_hooks")]
+                    if crate::verif_hooks::lenient_quotient_truncation() {
+                        quotient_poly
+                            .coeffs
+                            .truncate(degree * stark.quotient_degree_factor());
+                    }
                     quotient_poly
                         .trim_to_len(degree * stark.quotient_degree_factor())
                         .expect(
